@@ -62,7 +62,7 @@ pub(super) fn send_to(
         }
     }
 
-    if buf.len() as u32 > max_payload(k, dst_sa) {
+    if buf.len() > max_payload(k, dst_sa) as usize {
         return Poll::Ready(Err(Error::from_raw_os_error(EMSGSIZE)));
     }
 
